@@ -114,11 +114,12 @@ let doc_vars_ml (d : document) =
   List.concat_map (function
       | DOp o -> dirs_vars_ml o.op_dirs @ List.concat_map sel_vars_ml o.op_sels
       | DFrag f -> if List.mem f.fr_name reached then dirs_vars_ml f.fr_dirs @ List.concat_map sel_vars_ml f.fr_sels else []) d
-let prune_doc (d : document) : document =
+let prune_doc (strip_fragdef_dirs : bool) (d : document) : document =
   let vds = List.concat_map (function DOp o -> o.op_vars | DFrag _ -> []) d in
   let d' = List.map (function
       | DOp o -> DOp { o with op_sels = prune_sels vds o.op_sels }
-      | DFrag f -> DFrag { f with fr_sels = prune_sels vds f.fr_sels }) d in
+      | DFrag f -> DFrag { f with fr_sels = prune_sels vds f.fr_sels;
+                                  fr_dirs = if strip_fragdef_dirs then [] else f.fr_dirs }) d in
   let before = doc_vars_ml d and after = doc_vars_ml d' in
   List.map (function
       | DOp o -> DOp { o with op_vars = List.filter (fun vd -> not (List.mem vd.vd_name before) || List.mem vd.vd_name after) o.op_vars }
@@ -165,17 +166,16 @@ let handle (x : sexp) : (string * string) list =
       (* what Go effectively validates: statically skipped selections are gone, static
          @skip/@include directives are removed, fragment definitions (and with them their own
          directives) are dissolved *)
-      let effective g =
-        garbage := g;
-        let pd = prune_doc d in
-        (pd, List.map (function DFrag f -> DFrag { f with fr_dirs = [] } | x -> x) pd) in
+      let effective g = garbage := g; (prune_doc false d, prune_doc true d) in
       let (pd, ed) = effective false in
       let (pd, ed) = if spec_valid_b s ed opn = go then (pd, ed) else
           let (pd', ed') = effective true in if spec_valid_b s ed' opn = go then (pd', ed') else (pd, ed) in
       let eff =
-        if ed = d then "same"
-        else if spec_valid_b s ed opn = go then (if spec_valid_b s pd opn = go then "explains:static-skip" else "explains:fragdef-dirs")
+        if not go || spec then "n/a"
+        else if ed = d then "same"
+        else if spec_valid_b s ed opn then (if spec_valid_b s pd opn then "explains:static-skip" else "explains:fragdef-dirs")
         else "differs" in
+      let ed = if not go || spec then d else ed in
       [("specfail", Printf.sprintf "accept_iff_valid (go=%s spec=%s rules=[%s] kind=%s op=%s stage=%s family=%s eff=%s erules=[%s])%s"
           (if go then "accept" else "reject") (if spec then "valid" else "invalid") (show_rules d) kind op stage fam eff (show_rules ed)
           (if has_reordered_args d then " reordered-arguments" else ""))]
